@@ -42,6 +42,9 @@ pub fn schema() -> Vec<(&'static str, Ty)> {
     ]
 }
 
+/// paths whose parent is a number, a string or an array in every generated store
+pub const BELOW_A_SCALAR: [&str; 6] = ["n0.y", "Obj.n.y", "Obj.s.len", "Obj.inner.n.z", "tags.first", "x0.frac"];
+
 pub const STRS: [&str; 10] = [
     "alpha", "beta", "alphabet", "bet", "", "gamma delta", "A", "alpha ", "Alpha", "zeta_9",
 ];
@@ -220,8 +223,9 @@ pub fn gen_leaf(rng: &mut Rng, h: &Hostile) -> Leaf {
         };
         Leaf { lhs: Lhs::Field(f.to_string()), op, rhs }
     } else if k < 58 {
-        // null tests on any field
-        let (f, _) = *rng.pick(&schema());
+        // null tests on any field; one in four on a path that runs THROUGH a scalar or an array
+        // (nothing can be stored there: it reads as missing, i.e. null)
+        let f = if rng.chance(1, 4) { *rng.pick(&BELOW_A_SCALAR) } else { rng.pick(&schema()).0 };
         Leaf { lhs: Lhs::Field(f.to_string()), op: *rng.pick(&[Op::Eq, Op::Ne]), rhs: Rhs::Lit(V::Null) }
     } else if k < 70 {
         // membership in an array literal
@@ -241,11 +245,24 @@ pub fn gen_leaf(rng: &mut Rng, h: &Hostile) -> Leaf {
         }
     } else {
         // arithmetic on the left of a comparison
+        if rng.chance(1, 6) {
+            // `field - a == b - a` / `field + a != b + a` with b from the store's value pool: the
+            // comparison holds exactly for some stores, and the literal on the right is often signed
+            let f = *rng.pick(&fields_of(&[Ty::Int]));
+            let a = *rng.pick(&[1i64, 3, 10, 20, 60]);
+            let b = *rng.pick(&INTS[..13]);
+            let (sign, lit) = if rng.bool() { ('-', b - a) } else { ('+', b + a) };
+            return Leaf {
+                lhs: Lhs::Arith(Chain { first: Operand::Field(f.to_string()), rest: vec![(sign, Operand::Int(a))] }),
+                op: *rng.pick(&[Op::Eq, Op::Ne, Op::Eq, Op::Le, Op::Gt]),
+                rhs: Rhs::Lit(V::Int(lit)),
+            };
+        }
         let lhs = Lhs::Arith(gen_num_chain(rng, true));
         let op = *rng.pick(&Op::CMP);
         let rhs = match rng.below(6) {
-            0..=2 => Rhs::Lit(V::Int(*rng.pick(&[0i64, 1, 2, 3, 5, 10, 20, 100]))),
-            3 => Rhs::Lit(V::Float(*rng.pick(&[0.5f64, 2.5, 10.0]))),
+            0..=2 => Rhs::Lit(V::Int(*rng.pick(&[0i64, 1, 2, 3, 5, 10, 20, 100, -1, -5, -10, -47]))),
+            3 => Rhs::Lit(V::Float(*rng.pick(&[0.5f64, 2.5, 10.0, -2.5, -0.5]))),
             4 => Rhs::FieldRef(rng.pick(&fields_of(&[Ty::Int, Ty::Float])).to_string()),
             _ => Rhs::Arith(gen_num_chain(rng, false)),
         };
